@@ -22,6 +22,94 @@ type verifSchedEntry struct {
 	Auto  bool   `json:"auto"`
 	Wake  bool   `json:"wake"`
 	Sel   bool   `json:"sel"`
+	// identity of the goroutine that takes this step (Site "" = none known)
+	Parent int    `json:"parent"`
+	Site   string `json:"site"`
+	Occ    int    `json:"occ"`
+}
+
+// Goroutine identities: the engine names a goroutine by (parent, go-statement site, occurrence); the
+// instrumented build takes a token in the parent before each go statement and binds it in the child.
+var verifIDs struct {
+	mu     sync.Mutex
+	byGoid map[int64]int
+	occ    map[string]int
+	toks   []int
+}
+
+func verifGoid() int64 {
+	var buf [64]byte
+	n := runtime.Stack(buf[:], false)
+	// "goroutine 123 [running]:"
+	var id int64
+	for _, ch := range buf[10:n] {
+		if ch < '0' || ch > '9' {
+			break
+		}
+		id = id*10 + int64(ch-'0')
+	}
+	return id
+}
+
+// verifBindMain: the goroutine that runs the harness function is the engine's g0.
+func verifBindMain() {
+	verifIDs.mu.Lock()
+	if verifIDs.byGoid == nil {
+		verifIDs.byGoid = map[int64]int{}
+		verifIDs.occ = map[string]int{}
+	}
+	verifIDs.byGoid[verifGoid()] = 0
+	verifIDs.mu.Unlock()
+}
+
+func verifMyID() (int, bool) {
+	verifIDs.mu.Lock()
+	defer verifIDs.mu.Unlock()
+	id, ok := verifIDs.byGoid[verifGoid()]
+	return id, ok
+}
+
+func verifSpawnToken(site string) int {
+	verifLoad()
+	me, ok := verifMyID()
+	verifIDs.mu.Lock()
+	defer verifIDs.mu.Unlock()
+	id := -1
+	if ok {
+		key := strconv.Itoa(me) + "|" + site
+		k := verifIDs.occ[key]
+		verifIDs.occ[key] = k + 1
+		for _, e := range verifCtl.entries {
+			if e.Site == site && e.Parent == me && e.Occ == k {
+				id = e.Gor
+				break
+			}
+		}
+	}
+	verifIDs.toks = append(verifIDs.toks, id)
+	return len(verifIDs.toks) - 1
+}
+
+func verifBindChild(tok int) {
+	verifIDs.mu.Lock()
+	defer verifIDs.mu.Unlock()
+	if tok >= 0 && tok < len(verifIDs.toks) && verifIDs.toks[tok] >= 0 {
+		if verifIDs.byGoid == nil {
+			verifIDs.byGoid = map[int64]int{}
+			verifIDs.occ = map[string]int{}
+		}
+		verifIDs.byGoid[verifGoid()] = verifIDs.toks[tok]
+	}
+}
+
+// verifIsMine: may the calling goroutine take schedule entry e? Yes unless both identities are known
+// and differ.
+func verifIsMine(e verifSchedEntry) bool {
+	if e.Site == "" {
+		return true
+	}
+	me, ok := verifMyID()
+	return !ok || me == e.Gor
 }
 
 // verifWakeLocker wraps the Locker of every sync.Cond created in the instrumented build: when cond.Wait
@@ -67,7 +155,7 @@ func verifWakePoint() {
 			return
 		}
 		e := c.entries[c.cur]
-		if e.Wake {
+		if e.Wake && verifIsMine(e) {
 			verifCtlAdvance()
 			c.mu.Unlock()
 			return
@@ -149,7 +237,7 @@ func verifPoint(pos string) {
 			time.Sleep(200 * time.Microsecond)
 			continue
 		}
-		if e.Pos == pos {
+		if e.Pos == pos && verifIsMine(e) {
 			c.remain[pos]--
 			verifCtlAdvance()
 			c.mu.Unlock()
